@@ -4,9 +4,11 @@
    begin   {id, jobs}       a concurrent run starts: thread t executes jobs[t] (abstract jobs of Isolate)
    grant   {id, t}          the scheduler granted thread t the turn: t runs -- with the ACTIONS of Isolate, several TLC
                             steps per line -- until it passes a pause point or finishes
-   end     {id, rows}       all threads have finished; rows[t] = what thread t's statement returned (column values
-                            projected to the identities of the directives / postings they show)
-   serial  {id, job, rows}  a statement run alone: rows must be SerialRows(job)
+   end     {id, rows, desc} all threads have finished; rows[t] = the rows thread t RECEIVED from the cursor its execute()
+                            gave it (column values projected to the identities of the directives / postings they
+                            show), desc[t] = the descriptions it read (one per delivery step; a sequence of target kinds)
+   serial  {id, job, rows}  a statement run alone: rows must be DeliveredRows(job) (all of SerialRows(job) unless the job's
+                            delivery steps ask for fewer rows)
 
    A line the specification does not explain is reported as a JSON verdict and the run goes on (total verdicts);
    the last step prints a "consumed" verdict with the number of lines read, which the driver requires. *)
@@ -36,6 +38,8 @@ Begin1(e) ==
     /\ opnd' = [k \in Threads \cup {0} |-> Opnd0]
     /\ names' = [k \in Threads \cup {0} |-> NoNames]
     /\ slot' = [t \in Threads |-> NoNames]
+    /\ store' = [t \in Threads |-> Store0]
+    /\ recv' = [t \in Threads |-> Recv0]
 
 FirstBad(rows, obs) ==
     IF Len(obs) # Len(rows) THEN 0
@@ -71,18 +75,22 @@ TNext ==
               IF dead THEN l' = l + 1 /\ Stay /\ UNCHANGED <<dead, nbad>>
               ELSE LET n == Len(e.rows)
                        late == {t \in Threads : ~Done(t)}
-                       bad == {t \in 1..n : out[t] # e.rows[t]}
+                       bad == {t \in 1..n : recv[t].rows # e.rows[t]}
+                       badd == {t \in 1..n : recv[t].desc # e.desc[t]}
                    IN /\ l' = l + 1 /\ dead' = TRUE /\ Stay
                       /\ IF late # {}
                          THEN /\ Reject(e, "the run ended but the specification's thread still has steps", CHOOSE t \in late : TRUE, 0)
                               /\ nbad' = nbad + 1
                          ELSE IF bad # {}
                          THEN /\ LET t == CHOOSE t \in bad : \A u \in bad : t <= u
-                                 IN Reject(e, "rows differ from the specification", t, FirstBad(out[t], e.rows[t]))
+                                 IN Reject(e, "rows differ from the specification", t, FirstBad(recv[t].rows, e.rows[t]))
+                              /\ nbad' = nbad + 1
+                         ELSE IF badd # {}
+                         THEN /\ Reject(e, "description differs from the specification", CHOOSE t \in badd : \A u \in badd : t <= u, 0)
                               /\ nbad' = nbad + 1
                          ELSE UNCHANGED nbad
          [] e.k = "serial" ->
-              LET rows == SerialRows(e.job)
+              LET rows == DeliveredRows(e.job)
               IN /\ l' = l + 1 /\ Stay /\ UNCHANGED dead
                  /\ IF rows # e.rows
                     THEN Reject(e, "rows differ from SerialRows", 1, FirstBad(rows, e.rows)) /\ nbad' = nbad + 1
